@@ -20,6 +20,10 @@ assert hsolver._VERIF, 'HABUTAX_VERIF=1 must be exported (use ./check)'
 YEARS = sorted(available_forms)
 
 
+class NonTermination(Exception):
+    pass
+
+
 # --------------------------------------------------------------------------
 # attempt logging
 class Attempt(object):
@@ -55,10 +59,18 @@ class LogAccessor(Mapping):
         return len(self.inner)
 
 
-def _wrap_field(f, log):
+RUNAWAY = 400       # attempts of one line in one solve (the C06 bound, 1 + distinct waits, is far below this)
+
+
+def _wrap_field(f, log, counts=None):
     orig = f.value
 
     def value(inputs, values):
+        if counts is not None:
+            n = counts[f.name()] = counts.get(f.name(), 0) + 1
+            if n > RUNAWAY:
+                # BaseException-proof: nothing in the solver catches this class
+                raise NonTermination(f'{f.name()} attempted {n} times in one solve')
         rec = Attempt(f.name())
         log.append(rec)
         li = LogAccessor(inputs, f.form(), 'i', rec)
@@ -81,7 +93,7 @@ def instrumented(form_list, log):
     The log list is looked up through a holder so classes can be cached."""
     key = tuple(form_list)
     if key not in _INSTR_CACHE:
-        holder = {'log': None}
+        holder = {'log': None, 'counts': None}
         out = []
         for C in form_list:
             def __init__(self, _C=C, _holder=holder, **kw):
@@ -89,12 +101,13 @@ def instrumented(form_list, log):
                 lg = _holder['log']
                 if lg is not None:
                     for f in self.fields():
-                        _wrap_field(f, lg)
+                        _wrap_field(f, lg, _holder['counts'])
             W = type(C.__name__, (C,), {'__init__': __init__})
             out.append(W)
         _INSTR_CACHE[key] = (holder, out)
     holder, out = _INSTR_CACHE[key]
     holder['log'] = log
+    holder['counts'] = {}
     return out
 
 
@@ -204,10 +217,6 @@ def make_store(file_inputs, layout=None):
         text.append('')
     cp.read_string('\n'.join(text))
     return hinputs.InputStore(cp)
-
-
-class NonTermination(Exception):
-    pass
 
 
 class Result(object):
